@@ -263,6 +263,50 @@ func C13(rep *ev.Reporter, tier string) {
 			}
 		}
 	}
+	// family D: a counted method DECLARED to return an interface value, its call text shared by DIFFERENT enclosing
+	// atoms (member reads .V and .S of the result, in conditions and in an action)
+	genD := func(emit func(Case)) {
+		users := []func(i int) *grl.Rule{
+			func(i int) *grl.Rule {
+				n := fmt.Sprintf("u%d", i)
+				return grl.R(n, nil, fmt.Sprintf("F.Sheavy(F.I).V == %d", facts.HeavyOf(0)), fmt.Sprintf("F.Act(%d)", i), fmt.Sprintf(`Retract("%s")`, n))
+			},
+			func(i int) *grl.Rule {
+				n := fmt.Sprintf("u%d", i)
+				return grl.R(n, nil, `F.Sheavy(F.I).S == "s" && F.B`, fmt.Sprintf("F.Act(%d)", i), fmt.Sprintf(`Retract("%s")`, n))
+			},
+			func(i int) *grl.Rule {
+				n := fmt.Sprintf("u%d", i)
+				return grl.R(n, nil, "F.B", "F.In = F.Sheavy(F.I).V", fmt.Sprintf("F.Act(%d)", i), fmt.Sprintf(`Retract("%s")`, n))
+			},
+			func(i int) *grl.Rule {
+				n := fmt.Sprintf("u%d", i)
+				return grl.R(n, nil, fmt.Sprintf("F.Sheavy(F.I).V + 1 > %d", facts.HeavyOf(0)), fmt.Sprintf("F.Act(%d)", i), fmt.Sprintf(`Retract("%s")`, n))
+			},
+		}
+		for a := range users {
+			for b := range users {
+				if a == b {
+					continue
+				}
+				for ii, inv := range append([][]int{nil}, [][]int{{0}, {1}, {4}}...) {
+					rules := []*grl.Rule{users[a](1), users[b](2)}
+					var invNames, invKinds []string
+					for _, v := range inv {
+						r := c13Inval[v].rule()
+						rules = append(rules, r)
+						invKinds = append(invKinds, c13Inval[v].name)
+						if c13Inval[v].inval {
+							invNames = append(invNames, r.Name)
+						}
+					}
+					emit(Case{ID: fmt.Sprintf("c13d/%d.%d/i%d", a, b, ii), Rules: rules, Worlds: []func() *ref.World{mkWorld(true)}, WorldNames: []string{"Bt"},
+						Opts: hx.RunOpts{MaxCycle: maxCycle, NoSnapshots: true},
+						Meta: map[string]string{"inval": strings.Join(invNames, ","), "shape": fmt.Sprintf("interface-result:%d+%d/%s", a, b, strings.Join(invKinds, "+"))}})
+				}
+			}
+		}
+	}
 	// family C: a counted ACCESSOR (leaf field read F.P.V observed through a counting value node)
 	genC := func(emit func(Case)) {
 		invC := []struct {
@@ -336,7 +380,7 @@ func C13(rep *ev.Reporter, tier string) {
 			}
 		}
 	}
-	RunFamily(rep, func(emit func(Case)) { gen(emit); genB(emit); genC(emit) }, 1500, bud, judgeC13)
+	RunFamily(rep, func(emit func(Case)) { gen(emit); genB(emit); genC(emit); genD(emit) }, 1500, bud, judgeC13)
 	rep.Coverage["rule"] = "programs in which the counted pure method F.Heavy(F.I) occurs in k=1..3 rules in each of 8 surroundings (alone, left/right of &&, right of ||, inside arithmetic, as a method argument, under negation, in an action right-hand side) together with 0..2 of 6 writer rules (assignment to the argument variable, assignment to a prefix-similar variable, external change + Forget(variable), Forget(call text), Changed(variable), assignment on another object), 2 constants, 2 fact states, every rule order at every cycle; a second family uses the counted call F.Iheavy(F.I2), whose TEXT contains the variable name F.I without depending on it, with writers Changed(F.I) / Forget(F.I) / assignment to F.I (none of which concerns the call) and assignment / Forget of F.I2 (which do); a third family counts a field ACCESSOR instead of a method: leaf reads of F.P.V observed through a counting data context / value node wrapper, with writers assigning the leaf, a sibling field, another field, swapping the parent pointer, Forget/Changed naming the leaf. Oracle: between two invalidation events derived from the validated trace (firing of a rule that assigns F.I or calls Forget/Changed naming F.I or the call) the call counter advances by at most 1. Non-trivial: an epoch in which the call was read >=2 times and evaluated once."
 	rep.Assumptions = append(rep.Assumptions, "invalidating rules contain no counted call themselves, so the epoch boundary (their ExecuteRuleEntry) is unambiguous", "the run cap per (program, world) bounds 4-rule programs; capped explorations are reported", "accessor family: invalidating rules do not read the counted leaf themselves; the leaf is never the target of a compound assignment")
 }
